@@ -314,19 +314,15 @@ def judge(rep, evs, cal):
     agg = vlib.validate_traces("TrCss", traces)
     rep.add_traces(agg, len(traces))
     rep.evaluations += len(allev)
-    for bad in agg["bad"]:
-        tr = traces[bad["tid"]]
-        if not bad["fails"]:
-            continue
-        single = vlib.validate_traces("TrCss", [[e] for e in tr], shards=1)
-        for b2 in single["bad"]:
-            e = tr[b2["tid"]]
-            if any(f.startswith("R_") for f in b2["fails"]):
-                raise vlib.MachineryError(f"harness CSS reader disagrees with CssColor.tla on {e.get('txt')!r}: {b2['fails']}")
-            if b2["fails"]:
-                rep.violation("/".join(b2["fails"]), {"input": e.get("txt"), "background": e.get("bgarg"), "observation": e,
-                              "clauses": b2["fails"],
-                              "reproduce": f"cm_colors.core.color_parser.parse_color_to_rgb({e.get('txt')!r}) / Color(...).rgb"})
+    hits, more = vlib.pinpoint("TrCss", traces, agg)
+    for tid, j, fl in hits:
+        e = traces[tid][j]
+        if any(f.startswith("R_") for f in fl):
+            raise vlib.MachineryError(f"harness CSS reader disagrees with CssColor.tla on {e.get('txt')!r}: {fl}")
+        rep.violation("/".join(fl), {"input": e.get("txt"), "background": e.get("bgarg"), "observation": e, "clauses": fl,
+                      "reproduce": f"cm_colors.core.color_parser.parse_color_to_rgb({e.get('txt')!r}) / Color(...).rgb"})
+    if more:
+        print(f"NOTE: {more} further failing batches not itemised")
 
 
 def main():
